@@ -175,8 +175,14 @@ Proof.
     assert (A7 : forall x r stk b y st' sp', do_fail x r stk b = Some (y, st', sp') -> s_tasks y = s_tasks x).
     { intros x r stk b y st' sp' HH. unfold do_fail in HH. destruct (unwind r stk) as [[cs below]|]; [|discriminate].
       destruct b; inversion HH; reflexivity. }
+    assert (A8 : forall x n k y st' sp', inv_step x n k = Some (y, st', sp') -> s_tasks y = s_tasks x).
+    { intros x n k y st' sp' HH. unfold inv_step in HH.
+      destruct (Nat.ltb n (length (s_nodes x))); [|discriminate].
+      destruct (n_inv (getN x n)); [inversion HH; reflexivity|].
+      destruct (n_hinv (getN x n)) as [r|]; [destruct (r_spawn (getr x r))|]; inversion HH; reflexivity. }
     destruct f;
       repeat match type of T with
+      | inv_step _ _ _ = Some _ => apply A8 in T; exact T
       | Some _ = Some _ => inversion T; subst; clear T
       | None = Some _ => discriminate T
       | do_fail _ _ _ _ = Some _ => apply A7 in T; exact T
